@@ -525,8 +525,66 @@ fn subscriber_installed_later(rep: &mut Report) {
     }
 }
 
+/// An entry that is 8 KiB wide (the queue's slots hold entries inline).
+pub struct Wide {
+    id: u64,
+    _pad: [u8; 8184],
+}
+impl Entry for Wide {
+    fn write<'a>(&'a self, w: &mut impl EntryWriter<'a>) {
+        w.value("id", &self.id);
+    }
+}
+struct IdStream(Arc<Mutex<Vec<u64>>>);
+impl EntryIoStream for IdStream {
+    fn next(&mut self, entry: &impl Entry) -> Result<(), IoStreamError> {
+        if let Some(id) = id_of(entry) {
+            self.0.lock().unwrap().push(id);
+        }
+        Ok(())
+    }
+    fn flush(&mut self) -> std::io::Result<()> {
+        Ok(())
+    }
+}
+
+/// C09, "lost only if at least `capacity` newer entries were appended", for a configured
+/// capacity and entry width whose product is large (128 MiB): exactly `capacity` appends to a
+/// stalled writer lose nothing, `capacity + extra` lose exactly the `extra` oldest.
+fn wide_entries_keep_their_capacity(rep: &mut Report) {
+    let cap = 16_384usize;
+    let mut runs = vec![];
+    for extra in [0usize, 10] {
+        let seen = Arc::new(Mutex::new(Vec::new()));
+        let counts = Counts::default();
+        let (producer, writer) = BackgroundQueueBuilder::new()
+            .capacity(cap)
+            .metrics_recorder_local::<dyn metrics_024::Recorder, _>(counts.clone())
+            .__verif_build_unstarted::<IdStream, Wide>(IdStream(seen.clone()));
+        for id in 0..(cap + extra) as u64 {
+            producer.push(Wide { id, _pad: [0; 8184] });
+        }
+        writer.shut_down(true);
+        let seen = seen.lock().unwrap().clone();
+        let overflows = counts.0.lock().unwrap().get("metrique_queue_overflows").copied().unwrap_or(0);
+        let expect: Vec<u64> = (extra as u64..(cap + extra) as u64).collect();
+        runs.push(json!({"capacity": cap, "entry_bytes": std::mem::size_of::<Wide>(), "appended": cap + extra, "reached_the_stream": seen.len(), "overflow_counter": overflows}));
+        if seen != expect || overflows != extra as u64 {
+            rep.violation(
+                "writer:wide-entries-lost-below-capacity",
+                format!("capacity {cap}, {}-byte entries, {} appended to a stalled writer: {} reached the stream (expected the newest {cap}), overflow counter {overflows} (expected {extra})", std::mem::size_of::<Wide>(), cap + extra, seen.len()),
+                json!({"capacity": cap, "entry_bytes": std::mem::size_of::<Wide>(), "appended": cap + extra, "reached_the_stream": seen.len(), "first_id_seen": seen.first(), "overflow_counter": overflows}),
+            );
+        }
+    }
+    rep.set("writer_model_wide_entries", json!(runs));
+}
+
 pub fn run(prop: &'static str) {
     let mut rep = Report::from_args(prop, "model_checking");
+    if prop == "C09" && rep.replay.is_none() {
+        wide_entries_keep_their_capacity(&mut rep);
+    }
     if prop == "C01" && rep.replay.is_none() {
         subscriber_installed_later(&mut rep);
     }
